@@ -160,7 +160,7 @@ func completionPlan(res []int, perm []int, mode string) []string {
 	return plan
 }
 
-// VERIF_C19_ONLY=race,lock,trav,fanout (development aid) restricts a run to some of the streams; unset = all of them.
+// VERIF_C19_ONLY=race,travrace,lock,trav,fanout (development aid) restricts a run to some of the streams; unset = all of them.
 func c19Stream(name string) bool {
 	only := os.Getenv("VERIF_C19_ONLY")
 	if only == "" {
@@ -177,6 +177,9 @@ func c19Stream(name string) bool {
 func runC19(ctx *core.Ctx) {
 	if c19Stream("race") {
 		runC19Race(ctx)
+	}
+	if c19Stream("travrace") {
+		runC19TravRace(ctx)
 	}
 	if c19Stream("lock") {
 		runC19Lock(ctx)
